@@ -217,6 +217,14 @@ func planC01(tier string, seed int64) (*Plan, error) {
 		return nil, err
 	}
 	p.Jobs = append(p.Jobs, windowJobs("H_c01_convert", docs, seed, nwin, 1, []string{all, core, cfg("gfm,cjkcss3", "attr", "xhtml")})...)
+	ej, eb := extFamilyJobs("H_c01_convert", thorough, false, "autoid,attr", "", nil)
+	var ej2 []interp.Job
+	if thorough {
+		ej2, _ = extFamilyJobs("H_c01_convert", false, false, "", "unsafe,xhtml,hardwraps", nil)
+	}
+	aj, ab := attrFamilyJobs("H_c01_convert", thorough, false, []string{"core", allExt}, "")
+	lj, lb := longDocJobs("H_c01_convert", thorough, false, []string{all, core, cfg("gfm", "autoid", "unsafe")})
+	p.Jobs = append(append(append(append(p.Jobs, ej...), ej2...), aj...), lj...)
 	if thorough {
 		p.Jobs = append(p.Jobs, job("H_c01_convert", "cfg", core, "n", 4))
 		p.Jobs = append(p.Jobs, windowJobs("H_c01_convert", docs, seed+1, 150, 2, []string{all})...)
@@ -228,6 +236,9 @@ func planC01(tier string, seed int64) (*Plan, error) {
 		"tokens":        fmt.Sprintf("quick: every sequence of 6 (core) / 5 (all) tokens from 'contain5', 4 tokens from 'inlines9'/'blocks2', 6 from 'tabquote', 5 from 'tablist' (thorough 7); thorough: 7 from 'containers', 5 from 'inlines'/'blocks2' x {core, all}: %v", tokenSets),
 		"templates":     fmt.Sprintf("%d seed templates with a 2-byte fully symbolic window (link/image destinations, titles, labels, attributes, info strings, entities, raw HTML)", len(coreTemplates)),
 		"W(C,1)":        fmt.Sprintf("%d seeded (corpus document, offset) pairs with one fully symbolic byte, VERIF_SEED=%d; thorough adds W(C,2) on 150 pairs and S(4) core", nwin, seed),
+		"extensions":    eb + "; thorough: a second pass at the quick lengths with unsafe+xhtml+hardwraps",
+		"attributes":    ab,
+		"long":          lb,
 		"budget":        "20M SSA instructions per path stands for 'terminates'; a budget hit is replayed natively under a 20 s watchdog",
 		"outside":       "longer free-form inputs, wider windows, user extensions, failing writers (C14)",
 	}
@@ -400,7 +411,19 @@ func convertFamilies(entry string, tier string, seed int64, cfgsS2, cfgsS3, cfgs
 		return nil, nil, err
 	}
 	jobs = append(jobs, windowJobs(entry, docs, seed, nwin, 1, cfgsDeep, extra...)...)
+	// per-extension syntax, attribute blocks, long documents (plans3.go); parser/renderer options of the last deep configuration
+	lastParts := strings.SplitN(cfgsDeep[len(cfgsDeep)-1], "|", 3)
+	for len(lastParts) < 3 {
+		lastParts = append(lastParts, "")
+	}
+	ej, eb := extFamilyJobs(entry, thorough, light, lastParts[1], lastParts[2], nil, extra...)
+	aj, ab := attrFamilyJobs(entry, thorough, light, []string{"core", allExt}, lastParts[2], extra...)
+	lj, lb := longDocJobs(entry, thorough, light, cfgsDeep, extra...)
+	jobs = append(append(append(jobs, ej...), aj...), lj...)
 	b := map[string]interface{}{
+		"extensions":    eb,
+		"attributes":    ab,
+		"long":          lb,
 		"S(2)":          "every byte string of length 0..2 (256 values per byte) x " + fmt.Sprint(cfgsS2),
 		"S(3)":          "every byte string of length 3 x " + fmt.Sprint(cfgsS3),
 		"S(L,alphabet)": fmt.Sprintf("every string of length %d over each alphabet %v x %v", la, alphabets, cfgsDeep),
@@ -1810,6 +1833,13 @@ func planC02(tier string, seed int64) (*Plan, error) {
 			for tr := 0; tr < 3; tr++ {
 				jobs = append(jobs, job("H_c02_refdef", "ws1", ws1, "angle", angle, "sep", 0, "tr", tr))
 				nref++
+				if tr == 0 {
+					for cont := 1; cont <= 5; cont++ {
+						jobs = append(jobs, job("H_c02_refdef", "ws1", ws1, "angle", angle, "sep", 0, "tr", 0, "cont", cont))
+						jobs = append(jobs, job("H_c02_refdef", "ws1", ws1, "angle", angle, "sep", 1+cont%3, "q", cont%3, "tl", 1+cont%2, "tr", 0, "cont", cont))
+						nref += 2
+					}
+				}
 				for sep := 1; sep < 4; sep++ {
 					for q := 0; q < 3; q++ {
 						for tl := 1; tl <= 2; tl++ {
@@ -1820,6 +1850,35 @@ func planC02(tier string, seed int64) (*Plan, error) {
 				}
 			}
 		}
+	}
+	// HTML block start/end conditions (CommonMark 4.6): see harness/h/c02ref.go
+	nhtml := 0
+	for ind := 0; ind <= 3; ind++ {
+		for t1 := 0; t1 < 4; t1++ {
+			for t2 := 0; t2 < 4; t2++ {
+				if !thorough && ind > 0 && (t1+t2+ind)%4 != 0 {
+					continue
+				}
+				jobs = append(jobs, job("H_c02_html", "kind", 1, "t1", t1, "t2", t2, "ind", ind, "upper", (t1+t2)%2, "oneline", (t1+ind)%2))
+				nhtml++
+			}
+		}
+		for kind := 2; kind <= 5; kind++ {
+			for ol := 0; ol < 2; ol++ {
+				jobs = append(jobs, job("H_c02_html", "kind", kind, "ind", ind, "oneline", ol))
+				nhtml++
+			}
+		}
+		for t1 := 0; t1 < 12; t1++ {
+			if !thorough && (t1+ind)%4 != 0 {
+				continue
+			}
+			jobs = append(jobs, job("H_c02_html", "kind", 6, "t1", t1, "ind", ind, "upper", t1%2))
+			jobs = append(jobs, job("H_c02_html", "kind", 7, "t1", t1, "ind", ind, "upper", (t1+1)%2))
+			nhtml += 2
+		}
+		jobs = append(jobs, job("H_c02_html", "kind", 8, "ind", ind))
+		nhtml++
 	}
 	spec, err := LoadSpec()
 	if err != nil {
@@ -1856,7 +1915,8 @@ func planC02(tier string, seed int64) (*Plan, error) {
 		"symbolic":   "per tree, solved for at once: bullet marker in {-,+,*}, ordered delimiter in {.,)}, fence character in {`,~}, emphasis delimiter in {*,_}, thematic-break character in {*,-,_}, title quote in {\",'}, every text letter in a..z, every escaped punctuation byte over all 32 ASCII punctuation characters, numeric references &#33;..&#99;, a case flip for the first two letters of every full reference label",
 		"enumerated": "leading indentation 0-3, fence length 3-5, link style inline/full/collapsed/shortcut, hard break as backslash or two spaces, Setext vs ATX, ATX closing sequence, tab vs spaces for indented code (quick: the default spelling + 3 of 16 combinations per tree; thorough: 19 combinations)",
 		"tabs":       fmt.Sprintf("%d cases: chains of 1-3 container markers (block quote, bullet item) followed by every run of <= %d spaces/tabs and two symbolic letters; expected structure (paragraph, or indented code with its leading columns) from column arithmetic in the harness", ntabs, wsMax),
-		"refdef":     fmt.Sprintf("%d link reference definition boundary shapes (4.7): whitespace between colon and destination {space, line ending, line ending + 2 spaces, none} x destination {bare, <...>} x title {none; \" ' ( delimited, on one or two lines, separated by a space / a line ending / a line ending and a space} x trailer {nothing, a space, more text}, followed by a shortcut reference; label, destination, title and trailer letters symbolic; expected: definition with title / definition without title plus a paragraph / no definition, from 4.7", nref),
+		"refdef":     fmt.Sprintf("%d link reference definition boundary shapes (4.7): whitespace between colon and destination {space, line ending, line ending + 2 spaces, none} x destination {bare, <...>} x title {none; \" ' ( delimited, on one or two lines, separated by a space / a line ending / a line ending and a space} x trailer {nothing, a space, more text}, optionally paragraph text directly behind the definition (indented 0, 1, 3, 4 spaces or a tab), followed by a shortcut reference; label, destination, title and trailer letters symbolic; expected: definition with title / definition without title plus a paragraph / no definition, from 4.7", nref),
+		"html":       fmt.Sprintf("%d HTML block shapes (4.6): start conditions 1-7 (type 1: every pair of opening and closing name from pre/script/style/textarea; type 6: 12 block tag names, opening and closing form; type 7: an unknown tag alone on its line), 0-3 columns of indentation, end condition on the first line or on a later line, text behind the end condition, a blank line for types 6-7; the letter case of the first, middle and last tag-name letter is symbolic, the other letters lower or upper case; content letters symbolic", nhtml),
 		"spec":       fmt.Sprintf("%d examples of _test/spec.json (expected HTML from the file): final newline removed; an unrelated paragraph / ATX heading / thematic break with symbolic letters placed before; and, for the %d examples whose expected HTML ends in a closed block (p, h1-6, hr, blockquote, ul, ol), an extra final newline and the same unrelated block placed after; %d examples end in a code or HTML block and are skipped for the 'after' rewrites by that stated rule", nspec, nspec-nskip, nskip),
 		"comparison": "byte equality after deleting newlines directly behind '>' or directly in front of '<' and trailing newlines (a subset of what the specification's own normaliser ignores)",
 		"outside":    "tree shapes are enumerated, not symbolic; deeper or larger trees",
